@@ -70,11 +70,11 @@ CHECKS = {
         'Known finding K4 (summation graders return the single form for list input) is announced.',
    technique='Lean 4 proof (shape/range/consistency invariants through the call wrapper) + whole-call correspondence + predicate monitor', design='§6 C01'),
  'C18': dict(
-   text='clean_input and check_response modelled literally (regex verdicts and case folding as parameters); proved for all 16 flag combinations at once: no tab/CR/LF survives cleaning, strip_all leaves no space, clean_spaces leaves no two adjacent spaces, '
+   text='clean_input and check_response modelled literally (regex verdicts and case folding as parameters); proved for all 16 flag combinations at once: cleaning never drops, adds, reorders or alters a non-whitespace character (only case, when asked), no tab/CR/LF survives cleaning, strip_all leaves no space, clean_spaces leaves no two adjacent spaces, '
         'matching mode accepts exactly when the cleaned strings are identical, accept_any/accept_nonempty accept exactly when min_length (>=1 under accept_nonempty) and min_words hold on the cleaned submission, refusals follow explain_minimums / explain_validation, '
         'a pattern that does not match the whole cleaned submission refuses in every mode, an author answer violating the pattern is a ConfigError. Tie: real clean_input on all flag combinations x whitespace/case/character edits vs the model and vs an independent documented-normalisation reference; '
         'real check_response over option grids with re.fullmatch verdicts supplied to the model.',
-   note=PROOF_NOTE + ' The regex engine and full Unicode lower-casing are outside the model (parameters; ASCII+Latin-1 executable instance). The characterisation "non-whitespace characters are preserved in order" and strip\'s end condition are checked structurally on every correspondence case, not yet proved.',
+   note=PROOF_NOTE + ' The regex engine and full Unicode lower-casing are outside the model (parameters; ASCII+Latin-1 executable instance). The characterisation "non-whitespace characters are preserved in order (case-folded when case_sensitive is off)" is proved for all flag combinations (clean_preserves_nonspace, match_implies_same_visible); strip\'s end condition is checked structurally on every correspondence case.',
    technique='Lean 4 proof (list recursion on the cleaning pipeline, decision table of check_response) + exhaustive flag-grid correspondence', design='§6 C18'),
  'C13': dict(
    text='gen_symbols_samples (pruned constants, independent draws, the fixed-point loop over dependents with its progress check, the undefined-then-circular diagnosis), numbered_vars_regexp / generate_variable_list and construct_constants modelled literally over '
